@@ -698,6 +698,9 @@ package parser
 
 //@ func (p *Parser) parseBreakStatement
 //@   include ParseFrame
+// break: rejected outside every loop/switch, at its own line; otherwise bound to the innermost enclosing one (C20)
+//@   ensures [C20:break-outside] len(old(p.breakStack)) == 0 ==> (result1 != nil && result1.LineNumberStart == old(p.curToken.LineNumber))
+//@   ensures [C20:break-bound] len(old(p.breakStack)) > 0 ==> (result1 == nil && result0 != nil && result0.ScopeStatment == old(p.breakStack)[len(old(p.breakStack)) - 1] && result0.Token == old(p.curToken))
 //@   ensures [C20:stack-balanced] result1 == nil ==> (SameStack(p.breakStack, old(p.breakStack)) && SameStack(p.continueStack, old(p.continueStack)))
 //@   ensures [C18:located] result1 != nil ==> ErrLoc(result1)
 //@   loopinv [C20:stack-balanced-inv] SameStack(p.breakStack, old(p.breakStack)) && SameStack(p.continueStack, old(p.continueStack))
@@ -705,6 +708,9 @@ package parser
 
 //@ func (p *Parser) parseContinueStatement
 //@   include ParseFrame
+// continue: rejected outside every loop and when it is not the last statement of its block, at its own line (C20)
+//@   ensures [C20:continue-outside] (len(old(p.continueStack)) == 0 || old(p.peekToken.Type) != token.RBRACE) ==> (result1 != nil && result1.LineNumberStart == old(p.curToken.LineNumber))
+//@   ensures [C20:continue-bound] (len(old(p.continueStack)) > 0 && old(p.peekToken.Type) == token.RBRACE) ==> (result1 == nil && result0 != nil && result0.LoopStatment == old(p.continueStack)[len(old(p.continueStack)) - 1] && result0.Token == old(p.curToken))
 //@   ensures [C20:stack-balanced] result1 == nil ==> (SameStack(p.breakStack, old(p.breakStack)) && SameStack(p.continueStack, old(p.continueStack)))
 //@   ensures [C18:located] result1 != nil ==> ErrLoc(result1)
 //@   loopinv [C20:stack-balanced-inv] SameStack(p.breakStack, old(p.breakStack)) && SameStack(p.continueStack, old(p.continueStack))
@@ -838,6 +844,9 @@ package parser
 
 //@ func (p *Parser) parseConstant
 //@   include ParseFrame
+// const: a name already defined is rejected at the name's own line; otherwise only that name is (re)bound (C13, C20)
+//@   ensures [C13,C20:const-redef] (old(p.peekToken.Type) == token.IDENT && old(indom(p.constants, p.peekToken.Literal))) ==> (result0 != nil && result0.LineNumberStart == old(p.peekToken.LineNumber))
+//@   ensures [C13:const-only] forall k string :: {indom(p.constants, k)} (k != old(p.peekToken.Literal) && old(indom(p.constants, k))) ==> (indom(p.constants, k) && p.constants[k] == old(p.constants[k]))
 //@   modifies fields(p.constants)
 //@   ensures [C20:stack-balanced] result0 == nil ==> (SameStack(p.breakStack, old(p.breakStack)) && SameStack(p.continueStack, old(p.continueStack)))
 //@   ensures [C18:located] result0 != nil ==> ErrLoc(result0)
